@@ -62,7 +62,8 @@ def scratch():
 # ------------------------------------------------------------------------------------------
 # builds
 # ------------------------------------------------------------------------------------------
-def build(name, sources, flags, repo_sources=(), compiler="g++", extra_dep=(), libs=("-lpthread", "-ldl"), may_fail=False):
+def build(name, sources, flags, repo_sources=(), compiler="g++", extra_dep=(), libs=("-lpthread", "-ldl"), may_fail=False,
+          plain_sources=(), plain_flags=("-O1", "-g"), compile_only_flags=()):
     """Compile `sources` (harness files, absolute or relative to HARNESS) plus `repo_sources`
     (relative to REPO) into an executable cached under .build/<hash>/name. The hash covers every
     repository header and source (so any edit of the tree rebuilds) and every harness file."""
@@ -71,7 +72,8 @@ def build(name, sources, flags, repo_sources=(), compiler="g++", extra_dep=(), l
     dep_files = sorted(list((REPO / "include").rglob("*.h")) + list((REPO / "src").rglob("*.cpp")))
     dep_files += sorted(HARNESS.rglob("*.h")) + sorted(HARNESS.rglob("*.cpp"))
     cver = subprocess.run([compiler, "--version"], capture_output=True, text=True).stdout.split("\n")[0]
-    key = sha(name, " ".join(flags), cver, *[str(s) for s in srcs + rsrcs], *dep_files, *[Path(p) for p in extra_dep])
+    psrcs = [Path(s) if os.path.isabs(str(s)) else HARNESS / s for s in plain_sources]
+    key = sha(name, " ".join(flags), " ".join(compile_only_flags), cver, *[str(s) for s in srcs + rsrcs + psrcs], *dep_files, *[Path(p) for p in extra_dep])
     outdir = BUILD / key
     exe = outdir / name
     if exe.exists():
@@ -79,8 +81,27 @@ def build(name, sources, flags, repo_sources=(), compiler="g++", extra_dep=(), l
     outdir.mkdir(parents=True, exist_ok=True)
     cmd = [compiler, "-std=c++20"] + list(flags) + ["-I", str(REPO / "include"), "-I", str(HARNESS)]
     tmp_exe = "%s.%d.tmp" % (exe, os.getpid())
-    cmd += [str(s) for s in srcs + rsrcs] + ["-o", tmp_exe] + list(libs)
+    pobjs = []
+    for ps in psrcs:    # sources that must NOT get `flags` (e.g. the scheduler and the race detector are never instrumented)
+        po = "%s.%d.%s.o" % (exe, os.getpid(), ps.stem)
+        rr = subprocess.run([compiler, "-std=c++20"] + list(plain_flags) + ["-I", str(HARNESS), "-c", str(ps), "-o", po], capture_output=True, text=True)
+        if rr.returncode != 0:
+            raise InfraError("build of %s failed:\n%s" % (ps, rr.stderr[-3000:]))
+        pobjs.append(po)
     t0 = time.time()
+    if compile_only_flags:
+        # flags that must not reach the link step (e.g. -fsanitize=thread: instrument, but do not link libtsan)
+        objs = []
+        for k, src in enumerate(srcs + rsrcs):
+            o = "%s.%d.%d.o" % (exe, os.getpid(), k)
+            rr = subprocess.run(cmd + list(compile_only_flags) + ["-c", str(src), "-o", o], capture_output=True, text=True)
+            if rr.returncode != 0:
+                raise InfraError("build of %s failed:\n%s" % (src, rr.stderr[-3000:]))
+            objs.append(o)
+        pobjs += objs
+        cmd += pobjs + ["-o", tmp_exe] + list(libs)
+    else:
+        cmd += [str(s) for s in srcs + rsrcs] + pobjs + ["-o", tmp_exe] + list(libs)
     r = subprocess.run(cmd, capture_output=True, text=True)
     if r.returncode != 0:
         if os.path.exists(tmp_exe):
@@ -89,6 +110,9 @@ def build(name, sources, flags, repo_sources=(), compiler="g++", extra_dep=(), l
             return None
         raise InfraError("build of %s failed:\n%s\n%s" % (name, " ".join(cmd), r.stderr[-4000:]))
     os.replace(tmp_exe, exe)
+    for po in pobjs:
+        if os.path.exists(po):
+            os.remove(po)
     log("[build] %s (%.1fs)" % (name, time.time() - t0))
     return exe
 
